@@ -514,9 +514,21 @@ func c12LateRegistration(t *testing.T) {
 		}
 		kv := Skeleton(holder, 0)
 		setKey(kv, ts, ts.FieldIndex(ts.Fields[di].Disc), key)
-		kb := Render(kv, nil).Bytes // same layout as full, key bytes replaced (computed fields are not verified by decoders)
+		kb := Render(kv, nil).Bytes // same layout as full, key bytes replaced
 		part := []byte{0x5A, 1, 2, 3, 4}
 		wire := append(append(append([]byte{}, kb[:bodyOff]...), part...), kb[bodyOff+bodyLen:]...)
+		// self-computed fields of a frame must be right for THIS wire image (a decoder may verify them)
+		for _, sp := range full.Spans {
+			if sp.Path == "$."+lenFieldName(ts) && sp.Kind == "len" {
+				copy(wire[sp.Off:], putUint(nil, uint64(len(part)), sp.Len, ts.LE))
+			}
+		}
+		if cf := ckFieldName(ts); cf != "" {
+			f := ts.Fields[ts.FieldIndex(cf)]
+			n := NSize(f.NType)
+			sum := refChecksum(f.Algo, wire[:len(wire)-n])
+			copy(wire[len(wire)-n:], putUint(nil, sum&NMask(f.NType), n, ts.LE))
+		}
 		stream := append(append([]byte{}, wire...), Render(base, nil).Bytes...)
 		obj := regByName[holder].New()
 		buf := bytes.NewBuffer(stream)
